@@ -31,15 +31,13 @@ fn kc9_crc_combine_len3_4() {
     kani::cover!(true);
 }
 
-/// multmodp: x^0 is the identity and the operator is GF(2)-linear in its second argument for the operators the
-/// combine uses (op = x^(8 len) for concrete len)
+/// multmodp: x^0 (0x80000000 in the reflected representation) is the identity on both sides
 #[kani::proof]
 #[kani::unwind(40)]
-fn kc9_multmodp_identity_linear() {
-    let b1: u32 = kani::any();
-    let b2: u32 = kani::any();
-    assert!(multmodp(0x8000_0000, b1) == b1);
-    let op = crc32_combine_gen(5);
-    assert!(multmodp(op, b1 ^ b2) == multmodp(op, b1) ^ multmodp(op, b2));
-    kani::cover!(b1 != b2);
+fn kc9_multmodp_identity() {
+    let b: u32 = kani::any();
+    assert!(multmodp(0x8000_0000, b) == b);
+    kani::assume(b != 0);
+    assert!(multmodp(b, 0x8000_0000) == b);
+    kani::cover!(b == 0xedb8_8320);
 }
